@@ -161,6 +161,7 @@ def e2e_config(draw, front=("single", "single", "joint"), max_N=3, max_W=4, max_
         "reuse_buffers": draw(st.booleans()),
         "prior_calls_on_same_arrays": draw(st.booleans()),
         "series_as_views": draw(st.sampled_from([False, False, True])),
+        "mp_env": draw(st.sampled_from([False, False, True])),
     }
     if cfg["beta_form"] == "vector" and draw(st.booleans()):
         cfg["beta_vector_seed"] = draw(st.integers(0, 2 ** 16))
